@@ -2,6 +2,9 @@ package props
 
 import (
 	"fmt"
+	"os"
+	"os/exec"
+	"strings"
 	"sync"
 	"time"
 
@@ -184,10 +187,37 @@ func C05(c *ev.Ctx) {
 			c.AddSample(map[string]interface{}{"case": cs.C, "expected": cs.Out, "real": got})
 		}
 	}, func(int) {})
+	if c.Tier == "thorough" {
+		c.Cov.Extra["apalache_unbounded_window_arithmetic"] = apalacheWindow(c)
+	}
 	c.Cov.TracesValidatedAgainstImpl = int64(len(cases))
 	c.Cov.Evaluations = int64(len(cases))
 	c.Cov.DistinctNontrivial = nt
 	c.Cov.Exhaustive = true
 	c.Cov.Rule = "full product type x anchorFrom x anchorUntil x anchoring time x maxOperationTimeDelta x decoy parameter settings (MaxDeltaSize, MaxOperationSize, MaxOperationCount, NonceSize, MaxOperationHashLength, ...); TLC checks WindowEffect and OnlyDelta on the specification and emits the expected state and time-validator arguments; each case: real create + windowed operation resolved by the real processor, and the real parser (intake mode) with a recording time validator. Non-trivial: anchoring time within +-1 unit of a window edge."
 	c.Finish("model_checking")
+}
+
+// apalacheWindow is a NON-GATING extra: Apalache checks, for unbounded integers, that the implementation-shaped window
+// test equals the declarative InWindow (spec/WindowArith.tla). Its outcome is recorded in the evidence only.
+func apalacheWindow(c *ev.Ctx) string {
+	dir, err := os.MkdirTemp(c.Work, "apalache-")
+	if err != nil {
+		return "skipped: " + err.Error()
+	}
+	src, err := os.ReadFile(specDir() + "/WindowArith.tla")
+	if err != nil {
+		return "skipped: " + err.Error()
+	}
+	_ = os.WriteFile(dir+"/WindowArith.tla", src, 0o644)
+	cmd := exec.Command("timeout", "180", "apalache-mc", "check", "--inv=Equiv", "--length=1", "--out-dir="+dir+"/out", "WindowArith.tla")
+	cmd.Dir = dir
+	out, _ := cmd.CombinedOutput()
+	switch {
+	case strings.Contains(string(out), "The outcome is: NoError"):
+		return "NoError (ImplOk <=> InWindow for all non-negative integers from, until, t, delta)"
+	case strings.Contains(string(out), "The outcome is: Error"):
+		return "Apalache reports a counterexample for the SPECIFICATION's two window forms (design-level; not a verdict about the code)"
+	}
+	return "inconclusive (timeout or tool error)"
 }
